@@ -11,4 +11,11 @@ PROPS = {
                 rule="one evaluation = one generated mutation (2-6 top-level keys, fragments, merged duplicates, nested selections) "
                      "executed under one deferral/fault plan and one map-order policy; non-trivial = deferred work ran and at least two "
                      "top-level fields executed; distinct = distinct (scenario, resolver/thunk event log) hashes"),
+    "C04": dict(level="fault_enumeration", race=False,
+                quick=dict(enum=True, seeds=4000), thorough=dict(enum=True, seconds=420),
+                rule="one evaluation = one request executed under one fault plan (1-4 adversarial callback outcomes keyed by response "
+                     "path) and one map-order policy, compared with the null-propagation model applied to the fault-free run; every single "
+                     "(position, applicable fault kind, entry point) placement over the request pool is enumerated completely, multi-fault "
+                     "plans are sampled; non-trivial = at least one fault fired that the model acts on; distinct = distinct (scenario, "
+                     "callback event log) hashes"),
 }
